@@ -110,7 +110,8 @@ MinLen(a, b) == IF Len(a) < Len(b) THEN Len(a) ELSE Len(b)
 BrkSelectsTwo(i) ==
   LET R == N[i].regs IN
   IF ~Builds(i) THEN {} ELSE
-  { "address_selects_two_slaves" :
+  { IF R[q[1]].lk \/ R[q[2]].lk THEN "address_selects_two_slaves_one_in_a_linker_region"
+    ELSE "address_selects_two_slaves" :
       q \in { q \in IdxPairs(R) :
                 /\ R[q[1]].sl /\ R[q[2]].sl
                 /\ \E vi \in 1..MinLen(DEC[R[q[1]].dec], DEC[R[q[2]].dec]) :
@@ -258,9 +259,14 @@ Broken(i) ==
   ELSE {}
 
 Init == n = 1
-Next == /\ \E j \in 1..Len(N[n].k) : n' = N[n].k[j]
-        /\ (Broken(n') = {} \/ PrintT(ToString(<<"BAD", n', Broken(n')>>)))
+Next == \E j \in 1..Len(N[n].k) : n' = N[n].k[j]
 Spec == Init /\ [][Next]_vars
+
+(* listed as the first INVARIANT: always true; prints, once per node, ALL broken  *)
+(* clauses with their classes (TLC itself names only the first violated invariant *)
+(* of a state).  The harness cross-checks these lines against the violations TLC  *)
+(* reports for the invariants below.                                              *)
+Verdicts == Broken(n) = {} \/ PrintT(ToString(<<"BAD", n, Broken(n)>>))
 
 -----------------------------------------------------------------------------
 (* ------------------- the clauses, one INVARIANT each -------------------- *)
